@@ -961,6 +961,7 @@ func runC17(c *Ctx) {
 		})
 		c.check(sizeOK && nameOK, "R5", "long name size and name", p.Pos(rl.Pos()), "dirent.Size(), dirent.Name()", "the long name's size or name does not come from the entry")
 		checkOwnerSourcesAgree(c, "R6")
+		checkLongNameInstant(c, "R7")
 		checkLongNameClock(c, "R5")
 	}
 }
@@ -1138,4 +1139,95 @@ func checkLongNameClock(c *Ctx, rule string) {
 	}
 	c.check(n >= 1 && bad == "" && hasClock, rule, "long name shows the modification time on a 24-hour clock", p.Pos(fn.Pos()), "layouts use 15:04",
 		fmt.Sprintf("the long name formats the modification time with layout %q (12-hour clock, or no hour at all): entries modified after noon show a time that differs from their mtime attribute", bad))
+}
+
+// checkLongNameInstant (C17.R7): the attribute block carries the modification time as uint32(ModTime().Unix()), which
+// is another instant whenever the time lies outside [1970, 2106) — a handler's zero time.Time, a file dated 1969, on
+// 32-bit builds anything after 2038.  The long name of the same entry must show the instant the attributes carry, so
+// every time value that runLs formats is either built from the 32-bit value (time.Unix of a value that passed through a
+// uint32 conversion) or is selected on an edge where the time was compared with its own 32-bit reduction.
+func checkLongNameInstant(c *Ctx, rule string) {
+	p := c.P
+	fn := p.Func("runLs")
+	if fn == nil {
+		c.missing(rule, "runLs")
+		return
+	}
+	// values that went through uint32
+	reduced := map[ssa.Value]bool{}
+	eachInstr(fn, func(in ssa.Instruction) {
+		cv, ok := in.(*ssa.Convert)
+		if !ok {
+			return
+		}
+		if b, ok := cv.Type().Underlying().(*types.Basic); ok && b.Kind() == types.Uint32 {
+			if call, ok := cv.X.(*ssa.Call); ok && calleeName(&call.Call) == "Unix" {
+				reduced[cv] = true
+			}
+		}
+	})
+	for changed := true; changed; {
+		changed = false
+		eachInstr(fn, func(in ssa.Instruction) {
+			if cv, ok := in.(*ssa.Convert); ok && reduced[cv.X] && !reduced[cv] {
+				reduced[cv] = true
+				changed = true
+			}
+		})
+	}
+	var fromReduced func(v ssa.Value, d int) bool
+	fromReduced = func(v ssa.Value, d int) bool {
+		if d > 6 || v == nil {
+			return false
+		}
+		if reduced[v] {
+			return true
+		}
+		if call, ok := v.(*ssa.Call); ok {
+			switch calleeName(&call.Call) {
+			case "Unix", "In", "UTC", "Local":
+				for _, a := range call.Call.Args {
+					if fromReduced(a, d+1) {
+						return true
+					}
+				}
+			}
+		}
+		return false
+	}
+	n := 0
+	for _, in := range callsWhere(fn, func(cc *ssa.CallCommon) bool { return calleeName(cc) == "Format" && len(cc.Args) == 2 }) {
+		n++
+		recv := in.(*ssa.Call).Call.Args[0]
+		bad := ""
+		var walk func(v ssa.Value, b, pred *ssa.BasicBlock, d int)
+		walk = func(v ssa.Value, b, pred *ssa.BasicBlock, d int) {
+			if ph, ok := v.(*ssa.Phi); ok && d < 6 {
+				for k, e := range ph.Edges {
+					walk(e, ph.Block(), ph.Block().Preds[k], d+1)
+				}
+				return
+			}
+			if fromReduced(v, 0) {
+				return
+			}
+			// selected where the time equals its reduction
+			if pred != nil {
+				for cv, truth := range edgeConds(b, pred) {
+					bo, ok := cv.(*ssa.BinOp)
+					if !ok || !(bo.Op == token.EQL && truth || bo.Op == token.NEQ && !truth) {
+						continue
+					}
+					if reduced[bo.X] || reduced[bo.Y] {
+						return
+					}
+				}
+			}
+			bad = p.Pos(v.Pos())
+		}
+		walk(recv, in.Block(), nil, 0)
+		c.check(bad == "", rule, fmt.Sprintf("long name formats the instant the attributes carry (Format #%d)", n), p.Pos(in.Pos()), "the 32-bit mtime, or a time tested equal to it",
+			"the long name formats ModTime() as the handler or the file system reports it, while the attribute block of the same entry carries uint32(ModTime().Unix()): for a time before 1970 or after 2106 (a zero time.Time, on 386 anything after 2038) the two show different dates")
+	}
+	c.check(n >= 2, rule, "time columns of the long name", p.Pos(fn.Pos()), fmt.Sprintf("%d Format calls", n), fmt.Sprintf("only %d Format calls in runLs", n))
 }
